@@ -391,7 +391,7 @@ func (c *Checker) CheckSource(sourceName string, source string) (compiler.Compil
 	envCopy := c.runtimeEnv.DeepCopyEnv()
 	localEnvsCopy := c.deepCopyLocalEnvs(c.runtimeEnv, envCopy)
 	constantScopesCopy := c.deepCopyConstantScopes(c.runtimeEnv, envCopy)
-	methodScopesCopy := c.deepCopyMethodScopes(c.runtimeEnv, envCopy)
+	methodScopesCopy := c.deepCopyMethodScopes(c.runtimeEnv, envCopy, constantScopesCopy)
 	c.methodScopesCopyCache = nil
 	c.constantScopesCopyCache = nil
 	// the compiler of the last valid input knows the local variables that live on the stack of the VM
